@@ -178,6 +178,11 @@ def build_env(source, name, cfg_opts, arg_opts, roots, scratch):
     raise ValueError(source)
 
 
+def halves(mb):
+    """cache sizes go to the model in half megabytes (sizes such as 0.5 and 2.5 MB are in the domain)"""
+    return int(round(mb * 2))
+
+
 def model_sig(cfg_opts, arg_opts, labels):
     idx = {lab: i + 1 for i, lab in enumerate(labels)}
 
@@ -185,8 +190,8 @@ def model_sig(cfg_opts, arg_opts, labels):
         v = d.get(k)
         return "-" if v is None else str(f(v))
     line = "mk %d 0 %s %s %s %s %s %s %s %s" % (
-        idx["home"], o(cfg_opts, "path", idx.get), o(cfg_opts, "meta", idx.get), o(cfg_opts, "cache"), o(cfg_opts, "ro", int),
-        o(arg_opts, "path", idx.get), o(arg_opts, "meta", idx.get), o(arg_opts, "cache"), o(arg_opts, "ro", int))
+        idx["home"], o(cfg_opts, "path", idx.get), o(cfg_opts, "meta", idx.get), o(cfg_opts, "cache", halves), o(cfg_opts, "ro", int),
+        o(arg_opts, "path", idx.get), o(arg_opts, "meta", idx.get), o(arg_opts, "cache", halves), o(arg_opts, "ro", int))
     out = common.model_batch("config", [line])[0]
     sig, dct = out.split(" | ")
     _, ty, p, mp, c, ro = sig.split(" ")
@@ -224,7 +229,7 @@ def check_storage(case, scratch):
     d = obs.get("dict", {})
     back = {v: k for k, v in roots.items()}
     got_dict = dict(path=back.get(d.get("path")), meta=back.get(d.get("metadata_path")),
-                    cache=(None if d.get("memory_cache_mb") is None else int(d["memory_cache_mb"])), readonly=d.get("readonly"))
+                    cache=(None if d.get("memory_cache_mb") is None else halves(d["memory_cache_mb"])), readonly=d.get("readonly"))
     if got_dict != ms["dict"]:
         diffs.append(dict(component="to_dict", model=ms["dict"], observed=got_dict))
     # the property itself: the same options as constructor arguments behave the same (only for config-only cases)
@@ -366,7 +371,7 @@ def check_types(scratch):
 
 def storage_cases(rng, quick):
     """the full matrix of presence patterns for config-only cases x sources; argument-overrides sampled"""
-    vals = dict(path=["A", "B"], meta=["B", "C", "A"], cache=[8, 0, 2], ro=[False, True])
+    vals = dict(path=["A", "B"], meta=["B", "C", "A"], cache=[8, 0, 2, 0.5, 2.5], ro=[False, True])
     cases = []
     for pres in itertools.product([False, True], repeat=4):
         cfg = {}
